@@ -42,6 +42,8 @@ pub fn body_alphabet(full: bool) -> Vec<ValD> {
 pub fn op_alphabet(full: bool) -> Vec<OpD> {
     let mut ops = vec![
         OpD::Timestamp(TS_SMALL_NS),
+        // a timestamp before the unix epoch is a timestamp too (second one: a defect)
+        OpD::Timestamp(-1_000_000),
         OpD::Config(ConfD::EntryDims(vec![vec![s("E")]])),
     ];
     if full {
